@@ -47,17 +47,33 @@ theorem C07_exec (i : Instr) (len : UInt16) (a : Arch) (x : UInt16) (h : a.bus.i
 theorem C07_step (c : Cpu) (x : UInt16) (h : c.arch.bus.inRom x = true) :
     (step c).1.arch.bus.readByte x = c.arch.bus.readByte x := (step_romEq c).bytes x h
 
-/-- every history of steps, timed steps, requests and host writes — no bound on its length — that
-    does not declare a new range: no byte of the declared range changes and the declaration stays -/
-theorem C07_run (c : Cpu) (es : List Event) (hr : ∀ e ∈ es, e.isSetRom = false) (x : UInt16)
+/-- every history of host calls — no bound on its length — that does not declare a new range (and does not use
+    the two utilities that overwrite memory wholesale, `load_bin` and `clear_mem_slice`, which the property does not
+    cover): steps, timed steps, requests, byte and word stores, observations, clock settings, register
+    assignments.  No byte of the declared range changes and the declaration stays. -/
+theorem C07_run (c : Cpu) (es : List Event) (hr : ∀ e ∈ es, e.isSetRom = false ∧ e.overwrites = false) (x : UInt16)
     (h : c.arch.bus.inRom x = true) :
     (run c es).arch.bus.readByte x = c.arch.bus.readByte x ∧ (run c es).arch.bus.rom = c.arch.bus.rom :=
   ⟨(run_romEq c es hr).bytes x h, (run_romEq c es hr).rom⟩
 
+/-- the declaration itself is changed by `set_romspace` and by nothing else: in particular a `load_bin` that
+    fails (missing file), one that is refused, one that succeeds, and `clear_mem_slice` all leave the range
+    declared, so the stores that follow are still checked against it -/
+theorem C07_declaration_persists (c : Cpu) (es : List Event) (hr : ∀ e ∈ es, e.isSetRom = false) :
+    (run c es).arch.bus.rom = c.arch.bus.rom := run_rom_decl c es hr
+
+/-- a failed load changes nothing at all -/
+theorem C07_failed_load (c : Cpu) (org : UInt16) : runEvent c (.load none org) = c := by
+  show c.loadBin none org = c
+  unfold Cpu.loadBin Bus.loadBin
+  split <;> simp_all
+  all_goals (split at * <;> simp_all)
+
 /-- "once a ROM range has been declared": after ANY earlier history (stores into what will become ROM,
-    earlier declarations, ...) and a declaration [s, e], whatever follows leaves the bytes of [s, e]
+    earlier declarations, loads, ...) and a declaration [s, e], whatever follows leaves the bytes of [s, e]
     exactly as they were at the moment of the declaration -/
-theorem C07_run_redeclare (c : Cpu) (es1 es2 : List Event) (s e : UInt16) (hr : ∀ ev ∈ es2, ev.isSetRom = false)
+theorem C07_run_redeclare (c : Cpu) (es1 es2 : List Event) (s e : UInt16)
+    (hr : ∀ ev ∈ es2, ev.isSetRom = false ∧ ev.overwrites = false)
     (x : UInt16) (hx : s ≤ x ∧ x ≤ e) :
     (run c (es1 ++ [.setRom s e] ++ es2)).arch.bus.readByte x = (run c (es1 ++ [.setRom s e])).arch.bus.readByte x := by
   rw [run_append]
